@@ -304,6 +304,9 @@ pub enum LOp {
     /// replace a leaf map by a one-token map (through `set_sourcemap` on its section)
     ReplaceLeaf(u16, String),
     CloneIndex,
+    /// move every top-level section this many lines down, by overwriting the sections (through `get_section_mut`)
+    /// with new ones that have the same url and map
+    MoveDown(u8),
 }
 
 #[derive(Clone, Debug, Hash, Serialize, Deserialize)]
@@ -400,6 +403,17 @@ fn check_living(c: &LCase, obs: &mut Obs) -> Verdict {
             match op {
                 LOp::Again => {}
                 LOp::CloneIndex => smi = smi.clone(),
+                LOp::MoveDown(n) => {
+                    if ix.sections.iter().all(|s| s.off.0.checked_add(u32::from(*n)).is_some()) {
+                        for (k, sec) in ix.sections.iter_mut().enumerate() {
+                            sec.off.0 += u32::from(*n);
+                            let slot = smi.get_section_mut(k as u32).ok_or("get_section_mut")?;
+                            let (l, c) = slot.get_offset();
+                            let moved = sourcemap::SourceMapSection::new((l + u32::from(*n), c), slot.get_url().map(str::to_string), slot.get_sourcemap().cloned());
+                            *slot = moved;
+                        }
+                    }
+                }
                 LOp::SetContents(sel, src, text) if leaves > 0 => {
                     with_leaf(&mut ix, &mut smi, &mut pick(*sel), &mut |mm, sec| {
                         if mm.sources.is_empty() {
@@ -490,6 +504,7 @@ fn check_living(c: &LCase, obs: &mut Obs) -> Verdict {
             LOp::SetRoot(..) => "op:set_source_root(below a section)",
             LOp::ReplaceLeaf(..) => "op:set_sourcemap",
             LOp::CloneIndex => "op:clone",
+            LOp::MoveDown(_) => "op:sections-overwritten-at-new-offsets",
         });
         changed |= !matches!(op, LOp::Again | LOp::CloneIndex);
         match judge(&ix, &smi, &[], obs) {
@@ -516,6 +531,7 @@ fn living(t: Tier) -> BoxedStrategy<LCase> {
         1 => (any::<u16>(), proptest::option::of(proptest::sample::select(vec!["", "r", "r/", "webpack:///"]).prop_map(str::to_string))).prop_map(|(a, r)| LOp::SetRoot(a, r)),
         2 => (any::<u16>(), name()).prop_map(|(a, n)| LOp::ReplaceLeaf(a, n)),
         1 => Just(LOp::CloneIndex),
+        1 => (1u8..4).prop_map(LOp::MoveDown),
     ];
     (raw_index(t.pick(2, 3)), vec(op, 1..6))
         .prop_map(|(mut index, ops)| {
